@@ -25,6 +25,7 @@ class Broken(Exception):
 # ----------------------------------------------------------------------------- fact cache
 def tree_key(repo=REPO):
     h = hashlib.sha256()
+    h.update(b"format-3")  # bump when _parse's output changes
     files = []
     for root, dirs, fs in os.walk(os.path.join(repo, "src")):
         dirs.sort()
@@ -115,7 +116,25 @@ def _parse(d):
                     metas.append(o)
     if not bodies:
         raise Broken("no bodies extracted")
-    return {"bodies": bodies, "adts": adts, "impls": impls, "metas": metas}
+    callidx = {}
+    for p, b in bodies.items():
+        for i, bl in enumerate(b["blocks"]):
+            t = bl["t"]
+            if t[0] == "call" and not bl.get("c"):
+                for nm in {t[1].get("fn", ""), t[1].get("res", "")}:
+                    if nm:
+                        callidx.setdefault(nm, []).append((p, i))
+    import re
+    fre = re.compile(r"f:([A-Za-z_0-9]+):([^|\"\]]+)")
+    aggre = re.compile(r'"agg", "(adt:[^"]+|closure:[^"]+)"')
+    fieldidx, aggidx = {}, {}
+    for p, b in bodies.items():
+        txt = json.dumps(b["blocks"])
+        for m in set(fre.findall(txt)):
+            fieldidx.setdefault(m, []).append(p)
+        for m in set(aggre.findall(txt)):
+            aggidx.setdefault(m, []).append(p)
+    return {"bodies": bodies, "adts": adts, "impls": impls, "metas": metas, "callidx": callidx, "fieldidx": fieldidx, "aggidx": aggidx}
 
 
 # ----------------------------------------------------------------------------- operands / places
@@ -268,7 +287,9 @@ class Fn:
         return seen
 
     def live_blocks(self):
-        return self.reachable(0)
+        if getattr(self, "_live", None) is None:
+            self._live = self.reachable(0)
+        return self._live
 
     def return_blocks(self):
         live = self.live_blocks()
@@ -383,12 +404,16 @@ class Fn:
     def stmts(self):
         """yield (bb, idx, dest_place, rvalue, line) for live, non-cleanup blocks; call dests are
         reported with rvalue ['call', Call]"""
-        live = self.live_blocks()
-        for i, bl in enumerate(self.blocks):
-            if i not in live or bl.get("c"):
-                continue
-            for j, s in enumerate(bl["s"]):
-                yield i, j, s[0], s[1], s[2]
+        if getattr(self, "_stmts", None) is None:
+            live = self.live_blocks()
+            out = []
+            for i, bl in enumerate(self.blocks):
+                if i not in live or bl.get("c"):
+                    continue
+                for j, s in enumerate(bl["s"]):
+                    out.append((i, j, s[0], s[1], s[2]))
+            self._stmts = out
+        return self._stmts
 
     def defs(self):
         """local -> list of (bb, kind, payload) where kind in stmt/call"""
@@ -568,7 +593,36 @@ class Facts:
         return self._callers
 
     def callers_of(self, path):
-        return self.callers_index().get(path, [])
+        """live call sites (Call objects) whose declared or resolved callee is `path`"""
+        out = []
+        for p, bb in self.raw["callidx"].get(path, []):
+            f = self.fn(p)
+            for c in f.calls():
+                if c.bb == bb:
+                    out.append(c)
+        return out
+
+    def fns_touching(self, field, adt):
+        """functions whose MIR names field `field` of `adt` in any place"""
+        return [self.fn(p) for p in self.raw["fieldidx"].get((field, adt), [])]
+
+    def fns_building(self, agg):
+        """functions containing an aggregate rvalue `adt:<path>[::Variant]` or `closure:<path>`"""
+        return [self.fn(p) for p in self.raw["aggidx"].get(agg, [])]
+
+    def callers_matching(self, pred):
+        out = []
+        for nm in self.raw["callidx"]:
+            if pred(nm):
+                out.extend(self.callers_of(nm))
+        # a site can be indexed under both names
+        seen, res = set(), []
+        for c in out:
+            k = (c.fn.path, c.bb)
+            if k not in seen:
+                seen.add(k)
+                res.append(c)
+        return res
 
     def callees_local(self, path):
         """in-crate callee paths of the family of `path` (resolved where possible; both the trait
@@ -873,3 +927,69 @@ def norm_place(fn, pl):
     parts = pl.split("|")
     n = fn.local_name(int(parts[0]))
     return "|".join([n or ("_" + parts[0])] + parts[1:])
+
+
+# ----------------------------------------------------------------------------- K-ERR: how is a call's Result consumed
+SWALLOW = ("ok", "unwrap_or", "unwrap_or_default", "unwrap_or_else", "is_ok", "is_err", "is_ok_and", "is_err_and", "err",
+           "map_or", "map_or_else", "flatten", "into_iter", "iter", "unwrap", "expect", "and_then", "or_else", "or", "map", "map_err", "inspect_err")
+TRANSPARENT_RESULT = ("map_err", "map", "and_then", "inspect_err", "inspect", "with_context", "context", "or_else")
+
+
+def result_consumers(fn, call, depth=0):
+    """Classify what happens to the value produced by `call` (normally a Result):
+    set of tags among: 'try' (? operator), 'returned', 'match' (discriminant inspected),
+    'await' (into_future -> followed through the await), 'method:<name>' (Result/Option adaptor),
+    'arg:<callee>' (passed to another call), 'dropped' (never used), 'stored'."""
+    tags = set()
+    seen = set()
+    work = [place_local(call.dest)]
+    while work:
+        l = work.pop()
+        if l in seen:
+            continue
+        seen.add(l)
+        us = uses_of_local(fn, l)
+        if not us:
+            tags.add("dropped")
+        for u in us:
+            if u[0] == "ret":
+                tags.add("returned")
+            elif u[0] == "switch":
+                tags.add("match")
+            elif u[0] == "store":
+                pass
+            elif u[0] == "stmt":
+                dst, rv = u[2], u[3]
+                if rv[0] == "discr":
+                    tags.add("match")
+                elif rv[0] in ("use", "ref", "cast", "agg", "raw"):
+                    if "|" in dst:
+                        tags.add("stored")
+                    else:
+                        work.append(place_local(dst))
+                else:
+                    tags.add("op:" + rv[0])
+            elif u[0] == "call":
+                c = u[1]
+                nm = c.name.rsplit("::", 1)[-1]
+                if c.is_("Try::branch") or nm == "branch":
+                    tags.add("try")
+                elif nm in ("into_future", "poll", "new_unchecked", "get_context", "deref", "deref_mut", "as_mut", "as_ref", "borrow", "borrow_mut"):
+                    work.append(place_local(c.dest))
+                elif nm in TRANSPARENT_RESULT and ("Result" in c.self_ty or "Option" in c.self_ty) and u[2] == 0:
+                    tags.add("via:" + nm)
+                    work.append(place_local(c.dest))
+                elif ("Result" in c.self_ty or "Option" in c.self_ty) and u[2] == 0:
+                    tags.add("method:" + nm)
+                else:
+                    tags.add("arg:" + c.name)
+    return tags
+
+
+def propagates(tags):
+    """the Result is not silently discarded: it is ?-ed, returned, matched, or handed on"""
+    bad = {t for t in tags if t.startswith("method:") and t.split(":", 1)[1] in
+           ("ok", "unwrap_or", "unwrap_or_default", "unwrap_or_else", "is_ok", "is_err", "err", "map_or", "map_or_else", "flatten", "is_ok_and", "is_err_and", "iter", "into_iter")}
+    if bad or "dropped" in tags:
+        return False
+    return bool(tags & {"try", "returned", "match"}) or any(t.startswith("method:unwrap") or t.startswith("method:expect") or t.startswith("arg:") or t == "stored" for t in tags)
